@@ -40,12 +40,14 @@ pub struct Signature {
  */
 impl Signature {
     pub(crate) fn from_der_impl(bytes: &[u8]) -> Result<Signature, BSVErrors> {
-        let sighash_stripped_bytes = match bytes.last().and_then(|v| SigHash::from_u8(*v)) {
-            Some(_v) => bytes[0..bytes.len() - 1].to_vec(),
-            _ => bytes.to_vec(),
+        // Only treat the last byte as a sighash flag if the input is not a complete DER signature by itself
+        let sig = match SecpSignature::from_der(bytes) {
+            Ok(sig) => sig,
+            Err(e) => match bytes.last().and_then(|v| SigHash::from_u8(*v)) {
+                Some(_v) => SecpSignature::from_der(&bytes[0..bytes.len() - 1])?,
+                _ => return Err(e.into()),
+            },
         };
-
-        let sig = SecpSignature::from_der(&sighash_stripped_bytes)?;
 
         Ok(Signature { sig, recovery: None })
     }
